@@ -7,7 +7,7 @@ From TLV Require Import Base.Shape Base.PyList Base.Tensor Base.BigSum Base.Ops 
   Proofs.TransformsProofsPf2 Proofs.TransformsProofsR2 Proofs.TransformsProofsFlip Proofs.TransformsProofsApi Proofs.TransformsProofsPermList
   Proofs.TransformsProofsTTM Proofs.TransformsProofsOrtho Proofs.TransformsProofsNegMode Proofs.TransformsProofsNegMode2 Proofs.TransformsProofsAlign Proofs.TransformsProofsLink
   Model.TransformsApi Model.TransformsHeap Proofs.TransformsProofsValid Proofs.TransformsProofsHeap Proofs.TransformsProofsHeapTk
-  Model.TransformsCplx Model.TransformsRT Proofs.TransformsProofsCplx Proofs.TransformsProofsRT Proofs.TransformsProofsBc Proofs.TransformsProofsLink2 Model.TransformsTkObj Proofs.TransformsProofsTkObj.
+  Model.TransformsCplx Model.TransformsRT Proofs.TransformsProofsCplx Proofs.TransformsProofsRT Proofs.TransformsProofsBc Proofs.TransformsProofsLink2 Model.TransformsTkObj Proofs.TransformsProofsTkObj Proofs.TransformsProofsTkObjR Model.TransformsPfHeap Proofs.TransformsProofsPfHeap.
 From TLV Require Model.Factorized Proofs.FactorizedProofs Proofs.FactorizedProofs3 Proofs.FactorizedProofs5 Proofs.FactorizedProofs7 Proofs.FactorizedProofs9.
 Import ListNotations.
 
@@ -1029,6 +1029,34 @@ Theorem C04_compress_decompress_list : forall (F : Type) (Op : fops F), ring_the
 Proof. exact @compress_decompress_list. Qed.
 Print Assumptions C04_compress_decompress_list.
 
+(* svd_decompress_parafac2_tensor and the caller's projection LIST on a heap (Model/TransformsPfHeap.v): tables only grow, the operand's
+   list and what it reads are untouched, the result's list is new and reads as the pure model's answer; an entry with a loading is a
+   fresh array, an entry without one names the operand's array *)
+Theorem C04_svd_decompress_heap : forall (F : Type) (Op : fops F) (ph : pheap (F:=F)) pl Ls ph' pl',
+  pl < length (p_lst ph) -> (forall l, In l (plst ph pl) -> l < length (p_arr ph)) ->
+  svd_decompress_h Op ph pl Ls = Ok (ph', pl') ->
+  (exists a, p_arr ph' = p_arr ph ++ a) /\ (exists ls, p_lst ph' = p_lst ph ++ [ls]) /\ pl' = length (p_lst ph) /\
+  plst ph' pl = plst ph pl /\ pread ph' pl = pread ph pl /\
+  pread ph' pl' = decompress_projs Op (pread ph pl) Ls /\
+  length (plst ph' pl') = length (plst ph pl) /\
+  (forall k, k < length (plst ph pl) ->
+     match nth k Ls None with
+     | None => nth k (plst ph' pl') 0 = nth k (plst ph pl) 0
+     | Some _ => length (p_arr ph) <= nth k (plst ph' pl') 0
+     end).
+Proof. exact @svd_decompress_h_spec. Qed.
+Print Assumptions C04_svd_decompress_heap.
+
+(* which slices svd_compress_tensor_slices compresses: exactly those with more than rank_limit rows -- all of them under a non-zero
+   threshold -- and it returns one (score, loading) pair per slice *)
+Theorem C04_svd_compress_flags : forall (F : Type) (Op : fops F) (slices : list (mat F)) (thr : F) (mr : option nat)
+  (tapes : list (mat F * list F * mat F)) (i : nat),
+  length tapes = length slices -> i < length slices ->
+  length (compressed_flags Op slices thr mr tapes) = length slices /\
+  nth i (compressed_flags Op slices thr mr tapes) false = negb ((length (nth i slices []) <=? rank_limit slices mr) && feqb Op thr (f0 Op)).
+Proof. exact @compressed_flags_spec. Qed.
+Print Assumptions C04_svd_compress_flags.
+
 (* round 7 non-vacuity: a Gaussian-integer tensor ring whose imaginary parts matter (its dense tensor differs from that of its real
    parts), padded: same dense tensor, the parts of the padded cores are the padded parts; a list of one short slice (passed
    through) followed by one tall slice (compressed), fitted exactly: the decompressed tensor has the original slices *)
@@ -1039,6 +1067,8 @@ Example C04_round7_nonvacuous :
      pad_tt_rank Zops (map (tmap snd) [G1; G2]) 2 true = Ok (map (tmap snd) c')) /\
   chain_ok 2 [G1; G2] /\ order3 [G1; G2] /\ last_r2 2 [G1; G2] = 2 /\
   tr_to_tensor Gops (map (tmap (cx_re Zops)) [G1; G2]) <> tr_to_tensor Gops [G1; G2] /\
+  (exists ph' pl', svd_decompress_h Zops (mk_pheap [[[1]]; [[0]; [1]]]%Z [[0; 1; 0]]) 0 [None; Some [[0; 1]; [1; 0]; [0; 0]]; Some [[2]]]%Z = Ok (ph', pl') /\
+     plst ph' pl' = [0; 2; 3] /\ pread ph' pl' = [[[1]]; [[1]; [0]; [0]]; [[2]]]%Z /\ plst ph' 0 = [0; 1; 0]) /\
   (let slices := [[[2]]; [[3]; [4]]]%Z in let tapes := [([], [], []); ([[3]; [4]], [1], [[1]])]%Z in
    compressed_flags Zops slices 0%Z None tapes = [false; true] /\
    exists Ps', compress_then_decompress Zops slices 0%Z None tapes [1]%Z [[2]; [1]]%Z [[1]]%Z [[1]]%Z [[[1]]; [[1]]]%Z = Ok ([1]%Z, [[[2]; [1]]; [[1]]; [[1]]]%Z, Ps') /\
@@ -1046,7 +1076,7 @@ Example C04_round7_nonvacuous :
 Proof.
   cbv zeta. split; [eexists; split; [vm_compute; reflexivity|]; repeat split; vm_compute; reflexivity|].
   split; [repeat split; vm_compute; reflexivity|]. split; [repeat constructor|]. split; [reflexivity|].
-  split; [vm_compute; discriminate|]. split; [vm_compute; reflexivity|].
+  split; [vm_compute; discriminate|]. split; [do 2 eexists; split; [vm_compute; reflexivity|repeat split; vm_compute; reflexivity]|]. split; [vm_compute; reflexivity|].
   eexists. split; vm_compute; reflexivity.
 Qed.
 
@@ -1135,6 +1165,32 @@ Theorem C04_tucker_mode_dot_method_heap : forall (F : Type) (Op : fops F) (th : 
   (copy = false -> o < length cells -> tobj_read th' cells' o = (fst (tobj_read th cells o), snd (tobj_read th' cells' o'))).
 Proof. exact @tucker_mode_dot_method_spec. Qed.
 Print Assumptions C04_tucker_mode_dot_method_heap.
+
+(* obj.normalize() end to end over R (square roots = data with their contract tk_norms_ok): the object stays consistent, every entry of the
+   tensor it represents is unchanged, its factor columns have unit norm (tk_units: zero columns stay zero) *)
+Theorem C04_tucker_normalize_method_entry_R : forall tape (th : theap (F:=R)) cells o th' cells',
+  o < length cells -> tcell_wf th (tcellr cells o) -> tobj_consistent th cells o ->
+  tk_norms_ok (shape (fst (tobj_read th cells o))) tape (snd (tobj_read th cells o)) ->
+  tucker_normalize_method_h Rops tape th cells o = Ok (th', cells') ->
+  tobj_consistent th' cells' o /\
+  (forall idx, length idx = length (snd (tobj_read th cells o)) ->
+     tucker_entry Rops (fst (tobj_read th' cells' o)) (snd (tobj_read th' cells' o)) idx =
+     tucker_entry Rops (fst (tobj_read th cells o)) (snd (tobj_read th cells o)) idx) /\
+  tk_units (shape (fst (tobj_read th cells o))) tape (snd (tobj_read th' cells' o)).
+Proof. exact tucker_normalize_method_entry_R. Qed.
+Print Assumptions C04_tucker_normalize_method_entry_R.
+
+(* obj.tucker_copy(): nothing existing is touched; the copy is a new consistent object naming fresh locations only and holding what
+   the original holds *)
+Theorem C04_tucker_copy_heap : forall (F : Type) (th : theap (F:=F)) cells o th' cells' o',
+  tucker_copy_h th cells o = Ok (th', cells', o') ->
+  (exists a, t_arr th' = t_arr th ++ a) /\ (exists c, t_core th' = t_core th ++ c) /\ (exists l, t_lst th' = t_lst th ++ l) /\
+  o' = length cells /\ cells' = cells ++ [tcellr cells' o'] /\ tobj_consistent th' cells' o' /\
+  tobj_read th' cells' o' = tobj_read th cells o /\
+  length (t_core th) <= tc_core (tcellr cells' o') /\ length (t_lst th) <= tc_fs (tcellr cells' o') /\
+  (forall l, In l (tlst th' (tc_fs (tcellr cells' o'))) -> length (t_arr th) <= l).
+Proof. exact @tucker_copy_spec. Qed.
+Print Assumptions C04_tucker_copy_heap.
 
 (* the in-place contraction consumes its operand: afterwards the operand object is not a valid Tucker tensor (its old core has one mode
    more than the popped list has factors), whatever its cached shape says *)
